@@ -273,7 +273,16 @@ def run_case(case, env):
             if case.get('observe') == 'end' and 0 < i < len(case['ops']):
                 res.count('steps_unobserved')     # reading through the live handle must not become part of the workload
                 continue
-            if not observe(res, h.metadata, model, 'live'):
+            # in a quarter of the histories the live handle is read in mode r (mutations stay in r+): what a handle
+            # shows must not depend on the mode it was in when it looked last
+            romode = rot % 4 == 1
+            if romode:
+                h.accessmode = 'r'
+                res.count('mon.live_reads_in_mode_r')
+            okl = observe(res, h.metadata, model, 'live')
+            if romode:
+                h.accessmode = 'r+'
+            if not okl:
                 break
             if not observe(res, opener(path).metadata, model, 'fresh'):
                 break
